@@ -1,6 +1,6 @@
 (* C12/Final.v - the proofs of the theorems stated in C12/Props.v that combine several lemmas. *)
 From Coq Require Import List String Bool ZArith Lia Sorting.Sorted Sorting.Permutation.
-From Exo Require Import Base.Util Oracle.Model Oracle.Lemmas C12.Proofs C12.Lift C12.Agree C12.NoGap C12.Retention C13.Budget C12.NoGapMulti C12.NoGapClean.
+From Exo Require Import Base.Util Oracle.Model Oracle.Lemmas C12.Proofs C12.Lift C12.Agree C12.NoGap C12.Retention C13.Budget C12.NoGapMulti C12.NoGapClean C12.NoGapChain.
 Import ListNotations.
 Local Open Scope Z_scope.
 
@@ -66,31 +66,39 @@ Proof.
   split; [exact H | exact (ng_inv_nogap_state _ _ _ _ Hh H)].
 Qed.
 
-Lemma C12_no_gap_partial_l : forall p f bl b st,
-  mg_hyp p f -> 0 <= b -> b + Z.of_nat (List.length bl) < two64 ->
+Lemma C12_no_gap_partial_l : forall p f H0 bl b st,
+  mg_hyp p f -> 0 <= b -> b + Z.of_nat (List.length bl) < two64 -> b + Z.of_nat (List.length bl) <= H0 ->
   Forall (fun bk => Forall (fun nt => single_msg (snd nt)) (fst bk)) bl ->
-  mg_inv p f b st ->
+  mgx_inv p f H0 b st ->
   let b' := b + Z.of_nat (List.length bl) in
   let st' := run_blocks p b st bl in
-  mg_inv p f b' st' /\
+  mgx_inv p f H0 b' st' /\
   nogap_state p f b' (next_round_id (get_tp (st_store st') (f_token f))) false = true.
 Proof.
-  intros p f bl b st Hh Hb0 Hb1 Hall Hinv. cbv zeta.
-  pose proof (mg_run_blocks_inv p f Hh bl b st Hb0 Hb1 Hall Hinv) as H.
-  split; [exact H | exact (mg_inv_nogap_state _ _ _ _ H)].
+  intros p f H0 bl b st Hh Hb0 Hb1 HbH Hall Hinv. cbv zeta.
+  pose proof (mg_run_blocks_inv p f H0 Hh bl b st Hb0 Hb1 HbH Hall Hinv) as H.
+  split; [exact H | exact (mg_inv_nogap_state _ _ _ _ (proj1 H))].
 Qed.
 
-Lemma C12_no_gap_clean_histories_l : forall p f bl b st,
-  mg_hyp p f -> 0 <= b -> b + Z.of_nat (List.length bl) < two64 ->
-  clean_blocks p b st bl -> mg_inv p f b st ->
+Lemma C12_no_gap_clean_histories_l : forall p f H0 bl b st,
+  mg_hyp p f -> 0 <= b -> b + Z.of_nat (List.length bl) < two64 -> b + Z.of_nat (List.length bl) <= H0 ->
+  clean_blocks p b st bl -> mgx_inv p f H0 b st ->
   let b' := b + Z.of_nat (List.length bl) in
   let st' := run_blocks p b st bl in
-  mg_inv p f b' st' /\
+  mgx_inv p f H0 b' st' /\
   nogap_state p f b' (next_round_id (get_tp (st_store st') (f_token f))) false = true.
 Proof.
-  intros p f bl b st Hh Hb0 Hb1 Hcl Hinv. cbv zeta.
-  pose proof (clean_blocks_inv p f Hh bl b st Hb0 Hb1 Hcl Hinv) as H.
-  split; [exact H | exact (mg_inv_nogap_state _ _ _ _ H)].
+  intros p f H0 bl b st Hh Hb0 Hb1 HbH Hcl Hinv. cbv zeta.
+  pose proof (clean_blocks_inv p f H0 Hh bl b st Hb0 Hb1 HbH Hcl Hinv) as H.
+  split; [exact H | exact (mg_inv_nogap_state _ _ _ _ (proj1 H))].
+Qed.
+
+(* with pairwise different tokens nothing shares f's token *)
+Lemma co_ok_distinct_l : forall p f H0 b m,
+  In f (p_feeders p) -> NoDup (map f_token (p_feeders p)) -> co_ok p f H0 b m.
+Proof.
+  intros p f H0 b m Hin Hnd g Hing Hne Htok. exfalso. apply Hne.
+  rewrite (nodup_map_inj f_token _ g f Hnd Hing Hin Htok). reflexivity.
 Qed.
 
 (* the panic outcomes of the model (nil price in a report slot, empty median, missing round / feeder after checkMsg)
